@@ -34,7 +34,7 @@ def plan(tier):
 
 
 def gen_cases(ctx):
-    for i in range(ctx.share(ctx.scale(420, 12000))):
+    for i in range(ctx.share(ctx.scale(420, 48000))):
         rng = ctx.rng(1, i)
         r = i % 7
         kind = "builtin" if r == 0 else "ortho" if r in (1, 2, 3) else "texture"
